@@ -12,7 +12,7 @@ MANIFEST = dict(
          "any scope, on a completed scope, with a raising merge function. TLC explores all placements of records of "
          "four metric types (concatenate, replace, sum, raising merge) by 2-3 interleaved tasks over all small scope "
          "trees; every edge is replayed into real ctx.record calls, each completion callback reads metrics.read(M) and "
-         "metrics.metrics(merge=...) and a Drain edge from every state re-reads all completed scopes.",
+         "metrics.metrics(merge=...) and a Drain edge from every state re-reads all completed scopes. Also: records landing in scopes that were made in one place and entered in another; a metric type whose merge function answers with another class than the one recorded (CatSub).",
     technique="TLA+ spec + TLC exhaustive model checking; edge-complete graph replay into the implementation through a "
               "gated interpreter",
     design="5/C10")
